@@ -421,7 +421,10 @@ fn att_len() -> impl Strategy<Value = u32> {
 }
 
 fn headers_n() -> impl Strategy<Value = u16> {
-	prop_oneof![6 => Just(0u16), 3 => Just(1u16), 2 => Just(31u16), 3 => Just(32u16), 3 => Just(33u16), 3 => Just(64u16), 1 => Just(65u16), 1 => Just(89u16), 3 => 2u16..=89]
+	prop_oneof![6 => Just(0u16), 3 => Just(1u16), 2 => Just(31u16), 3 => Just(32u16), 3 => Just(33u16), 3 => Just(64u16), 1 => Just(65u16), 1 => Just(89u16), 3 => 2u16..=89,
+		// the full list of a header sync (MAX_BLOCK_HEADERS = 512: what a peer with more headers than that sends
+		// every time), one less, and a length in between
+		1 => Just(511u16), 2 => Just(512u16), 1 => 90u16..511]
 }
 
 const REASONS: [ReasonForBan; 8] = [
@@ -527,9 +530,12 @@ fn build_msg(spec: &MsgSpec, v: u32, p: &Pool) -> Result<WireMsg, String> {
 		MsgSpec::GetHeaders(seed, n) => wire(Type::GetHeaders, &Locator { hashes: (0..*n).map(|i| hash_from(*seed, i)).collect() }, v),
 		MsgSpec::Header(i) => wire(Type::Header, &p.headers[pick(*i, p.headers.len())], v),
 		MsgSpec::Headers(start, n) => {
-			let n = (*n as usize).min(p.headers.len());
-			let s = pick(*start, p.headers.len() - n + 1);
-			wire(Type::Headers, &grin_p2p::msg::Headers { headers: p.headers[s..s + n].to_vec() }, v)
+			// more headers than the prepared chain has: go round it again (the codec does not look at how the
+			// headers of a list relate to each other)
+			let len = p.headers.len();
+			let n = *n as usize;
+			let s = pick(*start, if n <= len { len - n + 1 } else { len });
+			wire(Type::Headers, &grin_p2p::msg::Headers { headers: (0..n).map(|k| p.headers[(s + k) % len].clone()).collect() }, v)
 		}
 		MsgSpec::GetBlock(s) => wire(Type::GetBlock, &hash_from(*s, 1), v),
 		MsgSpec::Block(i) => wire(Type::Block, &p.blocks[pick(*i, p.blocks.len())], v),
@@ -1107,10 +1113,11 @@ pub fn check_frag(ctx: &Ctx, case: &WireCase, counting: bool) -> PResult {
 			if m.t == Type::Headers as u8 {
 				let n = u16::from_be_bytes([s.body[0], s.body[1]]);
 				ev.class(&format!("headers_list_size:{}", match n {
-					0 | 1 | 31 | 32 | 33 | 64 | 65 | 89 => n.to_string(),
+					0 | 1 | 31 | 32 | 33 | 64 | 65 | 89 | 511 | 512 => n.to_string(),
 					2..=30 => "2-30".into(),
 					34..=63 => "34-63".into(),
-					_ => "66-88".into(),
+					66..=88 => "66-88".into(),
+					_ => "90-510".into(),
 				}));
 				if n > 32 {
 					batched = batched.max(n as usize);
@@ -1889,7 +1896,7 @@ fn short_seq_strategy() -> impl Strategy<Value = (u8, Vec<MsgSpec>)> {
 	(0u8..4, prop::collection::vec(m, 2..=7))
 }
 
-const RULE: &str = "part frag: proptest generates (protocol version in {1,2,3,1000}, 1-12 messages, 4 fragmentation plans); headers/blocks/compact blocks are real mined objects of the prepared 89-block AutomatedTesting chain, transactions come from the asset library, segment responses are cut from small in-memory PMMRs by Segment::from_pmmr, the rest from typed generators, unknown type bytes 29..255 carry arbitrary bodies of any length up to the limit for such frames (weighted towards short ones, 8 KiB +-1, 16 KiB, the limit and limit-1), TxHashSetArchive is followed by an attachment of 0..200000 bytes; every (sequence, plan) is one loopback TCP connection: the writer thread writes header‖body‖attachment split at the plan's cut points (whole / one cut / 2-40 random cuts / 1-byte dribble / all item boundaries -1,0,+1 / one cut inside every header and every body) with 0-5 ms pauses, the reader drives Codec::read like conn.rs (expect_attachment after TxHashSetArchive) and every received message is re-encoded and compared with the sent bytes (header batches concatenated, `remaining` and attachment `left` checked, sum of bytes_read = bytes sent); sweeps: every single cut point of short sequences (<= 600 bytes) plus a strided sweep over a long sequence (33 headers + attachment); header lists have 0 (the empty list a peer with nothing newer sends, frequent, in every position), 1, 31, 32, 33, 64, 65, 89 or random items; the empty list is additionally sent in directed sequences (alone, first, last, tripled, between batched lists, around attachments) at every version. part limits: for every type byte 0..28 and three unknown ones, on AutomatedTesting and Mainnet limits: wrong magic (other network / one bit flipped) and announced lengths nominal, nominal+1, 4x, 4x+1, 4x+4097, 2^32, 2^63, 2^64-1; header lists whose count field is n+1 / n-1 / 0 for n real headers (a zero count with trailing headers must be refused by the first read with nothing delivered); the bytes taken from the socket are measured by draining what the codec left; refused frames are re-read in a single-threaded child under the counting allocator. part handshake: real accept/initiate against a scripted peer advertising versions 0,1,2,3,999,1000,1001,2^32-1, two real instances (same / different genesis), one instance dialling itself. evaluations = connections of part frag + limit frames + allocator frames + handshakes. non-trivial = frag connection with >=1 cut strictly inside a message header and >=1 strictly inside a body/attachment whose sequence contains a header list of more than 32 items or a non-empty attachment; distinct by (version, set of message types, number of batches, number of attachment chunks, fragmentation kind)";
+const RULE: &str = "part frag: proptest generates (protocol version in {1,2,3,1000}, 1-12 messages, 4 fragmentation plans); headers/blocks/compact blocks are real mined objects of the prepared 89-block AutomatedTesting chain, transactions come from the asset library, segment responses are cut from small in-memory PMMRs by Segment::from_pmmr, the rest from typed generators, unknown type bytes 29..255 carry arbitrary bodies of any length up to the limit for such frames (weighted towards short ones, 8 KiB +-1, 16 KiB, the limit and limit-1), TxHashSetArchive is followed by an attachment of 0..200000 bytes; every (sequence, plan) is one loopback TCP connection: the writer thread writes header‖body‖attachment split at the plan's cut points (whole / one cut / 2-40 random cuts / 1-byte dribble / all item boundaries -1,0,+1 / one cut inside every header and every body) with 0-5 ms pauses, the reader drives Codec::read like conn.rs (expect_attachment after TxHashSetArchive) and every received message is re-encoded and compared with the sent bytes (header batches concatenated, `remaining` and attachment `left` checked, sum of bytes_read = bytes sent); sweeps: every single cut point of short sequences (<= 600 bytes) plus a strided sweep over a long sequence (33 headers + attachment); header lists have 0 (the empty list a peer with nothing newer sends, frequent, in every position), 1, 31, 32, 33, 64, 65, 89, 511, 512 (the full list of a header sync) or random items (beyond 89 the prepared headers repeat); the empty list is additionally sent in directed sequences (alone, first, last, tripled, between batched lists, around attachments) at every version. part limits: for every type byte 0..28 and three unknown ones, on AutomatedTesting and Mainnet limits: wrong magic (other network / one bit flipped) and announced lengths nominal, nominal+1, 4x, 4x+1, 4x+4097, 2^32, 2^63, 2^64-1; header lists whose count field is n+1 / n-1 / 0 for n real headers (a zero count with trailing headers must be refused by the first read with nothing delivered); the bytes taken from the socket are measured by draining what the codec left; refused frames are re-read in a single-threaded child under the counting allocator. part handshake: real accept/initiate against a scripted peer advertising versions 0,1,2,3,999,1000,1001,2^32-1, two real instances (same / different genesis), one instance dialling itself. evaluations = connections of part frag + limit frames + allocator frames + handshakes. non-trivial = frag connection with >=1 cut strictly inside a message header and >=1 strictly inside a body/attachment whose sequence contains a header list of more than 32 items or a non-empty attachment; distinct by (version, set of message types, number of batches, number of attachment chunks, fragmentation kind)";
 
 pub fn run(ctx: &Ctx) -> HResult<()> {
 	init_global();
